@@ -158,6 +158,10 @@ func runDetMarshal(c *simrun.Ctx) *simrun.Violation {
 	newRaceReports()
 	sched.Run()
 	newRaceReports() // a race alone is property C11's business; here bytes decide
+	if sched.Abandoned {
+		st.Add("runs_abandoned_lock_held_across_a_yield_point", 1)
+		return nil
+	}
 	st.Add("simulations", 1)
 	st.Add("scheduler_steps", int64(sched.Steps))
 	st.Add("fault_context_switches", int64(sched.Switches))
